@@ -58,6 +58,9 @@ def build(spec, style=0, props=None):
     if k == 'poly':
         return GeoPolygon([C(p) for p in spec[1]], holes=[build(h, style) for h in spec[2]] or None,
                           dt=mk_dt(spec[3], style), **kw)
+    if k == 'polyh':            # stored clockwise (the constructor's _is_hole flag)
+        return GeoPolygon([C(p) for p in spec[1]], holes=[build(h, style) for h in spec[2]] or None,
+                          dt=mk_dt(spec[3], style), _is_hole=True, **kw)
     if k == 'box':
         return GeoBox(C(spec[1]), C(spec[2]), holes=[build(h, style) for h in spec[3]] or None,
                       dt=mk_dt(spec[4], style), **kw)
@@ -452,6 +455,13 @@ CORPUS = [
     (['mpoint', [], None], ['mline', [], None], 'any', 'D24 empty multipoint / multilinestring'),
     (['mpoint', [], ['inst', 0]], ['mpoly', [], ['inst', 0]], 'any', 'D24 empty multipoint / multipolygon with dt'),
     (['mline', [], None], ['mpoly', [], None], 'any', 'empty multilinestring / multipolygon'),
+    # outlines stored in opposite windings: zero-area rings (both windings count as counter-clockwise, so the
+    # constructor keeps what it is given) and _is_hole=True polygons (stored clockwise); equality must see through it
+    (['poly', [[0, 0], [2, 0], [5, 0]], [], None], ['poly', [[5, 0], [2, 0], [0, 0]], [], None], 'same', 'zero-area ring reversed'),
+    (['poly', [[0, 0], [2, 2], [5, 5], [1, 1]], [], None], ['poly', [[5, 5], [2, 2], [0, 0], [1, 1]], [], None], 'same', 'zero-area ring reversed and rotated'),
+    (['poly', [[0, 0], [4, 0], [4, 4], [0, 4]], [], ['inst', 1]], ['polyh', [[0, 0], [4, 0], [4, 4], [0, 4]], [], ['inst', 1]], 'same', 'stored clockwise vs counter-clockwise'),
+    (['polyh', [[4, 4], [0, 4], [0, 0], [4, 0]], [], None], ['poly', [[0, 0], [4, 0], [4, 4], [0, 4]], [], None], 'same', 'stored clockwise vs counter-clockwise, rotated'),
+    (['polyh', [[1, 1], [5, 2], [3, 6]], [], None], ['polyh', [[3, 6], [5, 2], [1, 1]], [], None], 'same', 'both stored clockwise'),
     # coordinates whose float hashes collide (hash(-1.0) == hash(-2.0))
     (['point', [-1, 0], None], ['point', [-2, 0], None], 'diff', 'colliding coordinate hashes'),
     # D9: m is not part of coordinate identity (style 2 adds m)
@@ -501,8 +511,12 @@ def copy_checks(spec, style, props):
     s = build(spec, style, props=_copy.deepcopy(props))
     fails = []
     before = snapshot(s)
-    c = s.copy()
-    p = pickle.loads(pickle.dumps(s))
+    rc = guarded(lambda: s.copy())
+    rp = guarded(lambda: pickle.loads(pickle.dumps(s)))
+    if rc[0] != 'Ok' or rp[0] != 'Ok':
+        return [f'KCopyVal {shapelit(s)} {shapelit(s)} {shapelit(s)}'], \
+               [('copy/pickle raises', f'copy(): {rc[0]} {rc[1] if rc[0] != "Ok" else ""}; pickle round trip: {rp[0]} {rp[1] if rp[0] != "Ok" else ""}')]
+    c, p = rc[1], rp[1]
     cases = [f'KCopyVal {shapelit(s)} {shapelit(c)} {shapelit(p)}']
     nb = Numbering()
     o = number_obj(nb, s, 'orig')
@@ -562,8 +576,13 @@ def main():
         meta.append(m)
 
     def add_pair(sa, sb, tag, what, sty=(0, 0)):
-        a, b = build(sa, sty[0]), build(sb, sty[1])
-        o = observe_pair(a, b)
+        try:
+            a, b = build(sa, sty[0]), build(sb, sty[1])
+            o = observe_pair(a, b)
+        except Exception as ex:     # noqa: the implementation raised where the property promises an answer
+            ck.violation({'kind': 'implementation-raises', 'case': {'k': 'pair', 'a': sa, 'b': sb, 'styles': list(sty), 'tag': tag, 'what': what},
+                          'exception': repr(ex), 'how_to_replay': 'bin/check C15 --replay <this file>'})
+            raise SystemExit(1)
         m = {'k': 'pair', 'a': sa, 'b': sb, 'styles': list(sty), 'tag': tag, 'what': what, 'obs': o}
         add(pair_lit(a, b, o), m)
         bad = oracle_pair(o, tag)
